@@ -3,7 +3,10 @@
    under which the rule may fire* as an executable predicate over everything the pattern, `check` and `rewrite` read from
    the host -- including the conditions the property names: unknown type/shape, non-constant operand, a value that is only
    approximately the required one, an attribute left at a non-trivial default -- and the host semantics they guard.
-   The correspondence is one-directional (C05): wherever the real rule fires, the predicate must hold.
+   Each predicate is the model of the SHIPPED check; where a commit repaired the check (cf408b5 exponent, aa8c462 GQA) the
+   previous check is kept as the `legacy` variant.  The correspondence is two-directional on the generated hosts (fired <-> the
+   variant's predicate); the harness decides per run which variant the implementation is, a legacy implementation being a
+   violation that is replayed with its input.
    No proofs in this file. *)
 From Coq Require Import List ZArith Bool Arith.
 Require Import OV.Fusion.Field OV.Fusion.Norm OV.Fusion.Rotary OV.Fusion.Attn.
@@ -13,9 +16,29 @@ Import ListNotations.
 Inductive sq_form := SqMulF | SqPowF (num den : Z).
 Definition sq_exact (s : sq_form) : bool :=
   match s with SqMulF => true | SqPowF n d => (0 <? d)%Z && (n =? 2 * d)%Z end.
+(* the check before commit cf408b5 (`legacy`): the literal 2 was matched with math.isclose(e, 2, rel_tol=1e-5, abs_tol=1e-8):
+   |e - 2| <= max(1e-5 * max(|e|, 2), 1e-8), here on the exact fraction e = n/d, d > 0 *)
+Definition sq_close (s : sq_form) : bool :=
+  match s with
+  | SqMulF => true
+  | SqPowF n d =>
+      (0 <? d)%Z &&
+      let diff := Z.abs (n - 2 * d) in
+      ((diff * 100000 <=? Z.max (Z.abs n) (2 * d)) || (diff * 100000000 <=? d))%Z
+  end.
+Definition sq_ok (legacy : bool) (s : sq_form) : bool := if legacy then sq_close s else sq_exact s.
 Definition olz_is (l : option (list Z)) (v : Z) : bool :=
   match l with Some [x] => Z.eqb x v | _ => false end.
 Definition oz_is (a : option Z) (v : Z) : bool := match a with Some x => Z.eqb x v | None => false end.
+
+(* the dtype / epsilon part of LayerNormFusion.check and RmsNormFusion.check with the attributes their rewrite emits
+   (axis, stash_type); kept here so that C05 does not move with C19's variants of the same functions (rank guards) *)
+Definition ln_check_c05 (xdt : dtype) (eps_singleton : bool) : option (Z * Z) :=
+  if is_fp_type xdt && eps_singleton then Some ((-1)%Z, dtype_code xdt) else None.
+Definition rms_check_c05 (xdt sdt : dtype) (compute : option dtype) (eps_float_singleton : bool) : option (Z * Z) :=
+  let stash := match compute with Some c => c | None => xdt end in
+  if eps_float_singleton && is_float_type xdt && is_float_type sdt && is_fp_type stash
+  then Some ((-1)%Z, dtype_code stash) else None.
 
 (* ------------------------------------------------------------------------------------------ LayerNormFusion *)
 Record ln_host := {
@@ -24,11 +47,13 @@ Record ln_host := {
   lh_axes1 : option (list Z); lh_axes2 : option (list Z);   (* constant `axes` operand of the two ReduceMean; None = not constant *)
   lh_keepdims1 : option Z; lh_keepdims2 : option Z;         (* keepdims attribute as written; None = absent *)
   lh_sq : sq_form; lh_norm : norm_alt }.
-Definition ln_fires (h : ln_host) : option (Z * Z) :=
+Definition ln_fires_v (legacy : bool) (h : ln_host) : option (Z * Z) :=
   if olz_is (lh_axes1 h) (-1) && olz_is (lh_axes2 h) (-1) && oz_is (lh_keepdims1 h) 1 && oz_is (lh_keepdims2 h) 1
-     && sq_exact (lh_sq h)
-  then match lh_xdt h with Some d => ln_check_rewrite d (lh_eps_singleton h) | None => None end
+     && sq_ok legacy (lh_sq h)
+  then match lh_xdt h with Some d => ln_check_c05 d (lh_eps_singleton h) | None => None end
   else None.
+(* the shipped rule (exact exponent) *)
+Definition ln_fires (h : ln_host) : option (Z * Z) := ln_fires_v false h.
 
 (* ------------------------------------------------------------------------------------------ RmsNormFusion *)
 Record rms_host := {
@@ -38,13 +63,14 @@ Record rms_host := {
   rh_axes : option (list Z); rh_keepdims : option Z; rh_noop : option Z;   (* noop_with_empty_axes as written *)
   rh_exp : sq_form;                      (* always a Pow here *)
   rh_mul_order : bool }.
-Definition rms_fires (h : rms_host) : option (Z * Z) :=
-  if olz_is (rh_axes h) (-1) && oz_is (rh_keepdims h) 1 && oz_is (rh_noop h) 0 && sq_exact (rh_exp h)
+Definition rms_fires_v (legacy : bool) (h : rms_host) : option (Z * Z) :=
+  if olz_is (rh_axes h) (-1) && oz_is (rh_keepdims h) 1 && oz_is (rh_noop h) 0 && sq_ok legacy (rh_exp h)
   then match rh_xdt h, rh_sdt h with
-       | Some x, Some s => rms_check_rewrite x s (rh_compute h) (rh_eps_float_singleton h)
+       | Some x, Some s => rms_check_c05 x s (rh_compute h) (rh_eps_float_singleton h)
        | _, _ => None
        end
   else None.
+Definition rms_fires (h : rms_host) : option (Z * Z) := rms_fires_v false h.
 
 Section NormSem.
   Variable F : Type.
@@ -98,30 +124,35 @@ Record gqa_host := {
   gh_past_key : option (list Z); gh_past_value : option (list Z);
   gh_present_key : option (list Z); gh_present_value : option (list Z);   (* outputs of Expand => Reshape *)
   gh_expand_key : option (list Z); gh_expand_value : option (list Z);     (* outputs of Expand *)
-  gh_is_causal : option Z }.
-(* the check as read: the seven check_shape calls *)
-Definition gqa_bindings_impl (h : gqa_host) : option bindings :=
-  let b1 := check_shape (Some []) (gh_query h) [0; 1; 2; 3]%nat in
-  let b2 := check_shape b1 (gh_key h) [0; 4; 2; 3]%nat in
-  let b3 := check_shape b2 (gh_value h) [0; 4; 2; 3]%nat in
-  let b4 := check_shape b3 (gh_past_key h) [0; 4; 5; 3]%nat in
-  let b5 := check_shape b4 (gh_past_value h) [0; 4; 5; 3]%nat in
-  let b6 := check_shape b5 (gh_present_key h) [0; 1; 6; 3]%nat in
-  check_shape b6 (gh_present_value h) [0; 1; 6; 3]%nat.
-Definition gqa_fires_impl (h : gqa_host) : bool := match gqa_bindings_impl h with Some _ => true | None => false end.
-(* sound side condition: in addition the Expand outputs are [B, Hkv, G, T, D] with H = Hkv * G (static), and the
-   Attention node does not ask for a causal mask (which the fused node would align differently once it owns the past) *)
+  gh_is_causal : option Z;
+  gh_unsq_scalar2 : bool;                (* both Unsqueeze axes operands are 0-d constants equal to 2 (the pattern literal) *)
+  gh_concat_axis : option Z }.           (* axis attribute of the two Concat nodes as written (the pattern writes -2) *)
+Definition gqa_pattern_ok (h : gqa_host) : bool := gh_unsq_scalar2 h && oz_is (gh_concat_axis h) (-2).
+Fixpoint check_all (b : option bindings) (l : list (option (list Z) * list nat)) : option bindings :=
+  match l with [] => b | (sh, names) :: t => check_all (check_shape b sh names) t end.
+Definition gqa_operands (h : gqa_host) : list (option (list Z) * list nat) :=
+  [(gh_query h, [0; 1; 2; 3]); (gh_key h, [0; 4; 2; 3]); (gh_value h, [0; 4; 2; 3]);
+   (gh_past_key h, [0; 4; 5; 3]); (gh_past_value h, [0; 4; 5; 3]);
+   (gh_present_key h, [0; 1; 6; 3]); (gh_present_value h, [0; 1; 6; 3])]%nat.
+Definition gqa_expands (h : gqa_host) : list (option (list Z) * list nat) :=
+  [(gh_expand_key h, [0; 4; 7; 6; 3]); (gh_expand_value h, [0; 4; 7; 6; 3])]%nat.
+(* the check before commit aa8c462 (`legacy`): the seven check_shape calls *)
+Definition gqa_bindings_impl (h : gqa_host) : option bindings := check_all (Some []) (gqa_operands h).
+Definition gqa_fires_impl (h : gqa_host) : bool := gqa_pattern_ok h && match gqa_bindings_impl h with Some _ => true | None => false end.
+(* the shipped check: is_causal absent or 0; in addition the Expand outputs are [B, Hkv, G, T, D]; H, Hkv, G static
+   (isinstance(.., int): a non-negative code) with H = Hkv * G *)
+Definition is_static_dim (v : Z) : bool := (0 <=? v)%Z.
 Definition gqa_fires (h : gqa_host) : bool :=
-  let b7 := check_shape (gqa_bindings_impl h) (gh_expand_key h) [0; 4; 7; 6; 3]%nat in
-  let b8 := check_shape b7 (gh_expand_value h) [0; 4; 7; 6; 3]%nat in
-  match b8 with
+  gqa_pattern_ok h && match gh_is_causal h with None => true | Some v => (v =? 0)%Z end &&
+  match check_all (Some []) (gqa_operands h ++ gqa_expands h) with
   | Some b =>
       match lookup b 1, lookup b 4, lookup b 7 with
-      | Some hq, Some hkv, Some g => (0 <? hkv)%Z && (0 <? g)%Z && (hq =? hkv * g)%Z
+      | Some hq, Some hkv, Some g => is_static_dim hq && is_static_dim hkv && is_static_dim g && (hq =? hkv * g)%Z
       | _, _, _ => false
-      end && match gh_is_causal h with None => true | Some v => (v =? 0)%Z end
+      end
   | None => false
   end.
+Definition gqa_fires_v (legacy : bool) (h : gqa_host) : bool := if legacy then gqa_fires_impl h else gqa_fires h.
 
 Section Gqa23.
   Variable A : Type.
@@ -147,23 +178,25 @@ Inductive fcase :=
   | FPartial (h : partial_host) (fired : bool)
   | FGqa (h : gqa_host) (fired : bool).
 Definition is_some {X} (o : option X) : bool := match o with Some _ => true | None => false end.
-(* what the implementation did must be permitted by the side condition; not firing is always permitted *)
-Definition fagrees (c : fcase) : bool :=
+(* two-directional on the generated hosts: the implementation fired exactly where the model of its check says so.
+   pow_legacy / gqa_legacy select the model of the check before / after commits cf408b5 / aa8c462; the harness asks for
+   both and reports which variant the implementation under test is *)
+Definition fagrees (pow_legacy gqa_legacy : bool) (c : fcase) : bool :=
   match c with
-  | FLn h f => implb f (is_some (ln_fires h))
-  | FRms h f => implb f (is_some (rms_fires h))
-  | FRot h f => implb f (is_some (rot_fires h))
-  | FPartial h f => implb f (is_some (partial_fires h))
-  | FGqa h f => implb f (gqa_fires h)
+  | FLn h f => Bool.eqb f (is_some (ln_fires_v pow_legacy h))
+  | FRms h f => Bool.eqb f (is_some (rms_fires_v pow_legacy h))
+  | FRot h f => Bool.eqb f (is_some (rot_fires h))
+  | FPartial h f => Bool.eqb f (is_some (partial_fires h))
+  | FGqa h f => Bool.eqb f (gqa_fires_v gqa_legacy h)
   end.
-Fixpoint fdisagreeing (i : nat) (l : list fcase) : list nat :=
-  match l with [] => [] | c :: t => (if fagrees c then [] else [i]) ++ fdisagreeing (S i) t end.
-(* the two directions for the rules whose model is exact on the generated hosts (attributes emitted by rewrite) *)
-Definition fattrs (c : fcase) (obs : option (Z * Z)) : bool :=
+Fixpoint fdisagreeing (pl gl : bool) (i : nat) (l : list fcase) : list nat :=
+  match l with [] => [] | c :: t => (if fagrees pl gl c then [] else [i]) ++ fdisagreeing pl gl (S i) t end.
+(* attributes emitted by rewrite (axis, stash_type) *)
+Definition fattrs (pl : bool) (c : fcase) (obs : option (Z * Z)) : bool :=
   match c with
-  | FLn h true => oz2_eqb (ln_fires h) obs
-  | FRms h true => oz2_eqb (rms_fires h) obs
+  | FLn h true => oz2_eqb (ln_fires_v pl h) obs
+  | FRms h true => oz2_eqb (rms_fires_v pl h) obs
   | _ => true
   end.
-Fixpoint adisagreeing (i : nat) (l : list (fcase * option (Z * Z))) : list nat :=
-  match l with [] => [] | (c, o) :: t => (if fattrs c o then [] else [i]) ++ adisagreeing (S i) t end.
+Fixpoint adisagreeing (pl : bool) (i : nat) (l : list (fcase * option (Z * Z))) : list nat :=
+  match l with [] => [] | (c, o) :: t => (if fattrs pl c o then [] else [i]) ++ adisagreeing pl (S i) t end.
